@@ -84,8 +84,11 @@ SyncViol(st) == SumSeq(LAMBDA c : IF Cust(c).req <= 1 THEN 0
                                IN IF Cardinality(vs) < Cust(c).req THEN (Cust(c).req - Cardinality(vs)) * 1000
                                   ELSE IF Cardinality(vs) > 1 THEN (CHOOSE m \in times : \A x \in times : x <= m) - (CHOOSE m \in times : \A x \in times : m <= x)
                                   ELSE 0, NC)
-Objective(st) == SumSeq(LAMBDA v : RouteDist(st.routes[v]), Len(st.routes)) + 1000 * TwViol(st) + 1000 * CapViol(st)
-                 + 10000 * SyncViol(st) + 100000 * Cardinality(ToSet(st.unassigned))
+\* the caller's weights <<distance, vehicle, time-window, capacity, sync>> (the defaults when the trace carries none)
+W == IF "w" \in DOMAIN T THEN T.w ELSE <<1, 0, 1000, 1000, 10000>>
+Used(st) == Cardinality({v \in 1..Len(st.routes) : Len(st.routes[v]) > 0})
+Objective(st) == W[1] * SumSeq(LAMBDA v : RouteDist(st.routes[v]), Len(st.routes)) + W[2] * Used(st) + W[3] * TwViol(st) + W[4] * CapViol(st)
+                 + W[5] * SyncViol(st) + 100000 * Cardinality(ToSet(st.unassigned))
 ResultCheck(e) ==
   IF e.status \notin {"FEASIBLE", "OPTIMAL", "MAX_ITER"} THEN "Return.unexpected_status"
   ELSE IF StateBad(e.state) # "" THEN "Result." \o StateBad(e.state)
